@@ -452,6 +452,9 @@ func main() {
 		if a["warm"] == "true" {
 			os.Setenv("VERIF_WARM", "1") // read by Engine.Init
 		}
+		if a["poolkeep"] == "true" {
+			poolKeep = true
+		}
 		eng.Init()
 		stopAfter = atoi(a["stopafter"], 0)
 		enumFrom, enumTo = atoi(a["enumfrom"], -1), atoi(a["enumto"], -1)
@@ -738,7 +741,12 @@ func checkMain(a map[string]string) int {
 					args = append(args, "--warm")
 				}
 				bin := self
-				if a["altbin"] != "" && bi%3 == 2 {
+				if a["keepbin"] != "" && bi%6 == 4 {
+					// race detector armed, sync.Pool keeps everything that is Put, one P:
+					// a pooled object used after Put by one runtime and then by another
+					bin = a["keepbin"]
+					args = append(args, "--poolkeep")
+				} else if a["altbin"] != "" && bi%3 == 2 {
 					// every third batch runs without the race detector and with the
 					// real sync.Pool: faster, and semantic interference that depends on
 					// pooled-object reuse stays reachable
@@ -837,7 +845,9 @@ func checkMain(a map[string]string) int {
 				}
 				mu.Lock()
 				batches++
-				if bin != self {
+				if bin == a["keepbin"] && bin != "" {
+					br.Stats.Probes["batches_with_race_detector_and_keeping_pool"]++
+				} else if bin != self {
 					br.Stats.Probes["batches_without_race_detector"]++
 				} else if a["altbin"] != "" {
 					br.Stats.Probes["batches_with_race_detector"]++
